@@ -37,6 +37,17 @@ def gen(rng, tier, quarantine=()):
     live = []
     gens = []
     ng = 0
+    # most runs start with an overlay active and a generator under way
+    if rng.random() < 0.7:
+        pid = pending.pop(0)
+        ops.append({"op": "enter", "id": pid})
+        live.append(pid)
+    if rng.random() < 0.7:
+        ops.append({"op": "gen_new", "gen": "g0", "fn": rng.choice(["gen", "gen2"]), "nargs": 1,
+                    "cycle": rng.random() < 0.25})
+        gens.append("g0")
+        ng = 1
+        ops.append({"op": "gen_next", "gen": "g0", "tape": gen_tape(rng, 6, hi=12, odd=0.6), "faults": {}})
     nsteps = rng.randint(5, 14) if tier == "quick" else rng.randint(8, 30)
     for _ in range(nsteps):
         r = rng.random()
